@@ -47,8 +47,8 @@ TECHNIQUE = ("bounded-exhaustive enumeration of MapSpec pipelines x storage x lo
              "coordinate value")
 RULE = ("G-MAP (vmc/gen_map.py, roots {x[i]; x[i],y[i]; x[i],y[j]; x[i,j]; x[i,j],y[j]; x[i],n}, distinct string elements). quick: every "
         "1-function pipeline x {dict+persist, file_array} x load_intermediate {T,F} x every non-empty subset of outputs + 'all'; every "
-        "2-function pipeline whose second function consumes only `a`, or `a` and a new 1-D root z zipped with a's first axis when the "
-        "first function has one output: file_array x {T,F} x (each single output + 'all'), dict x {T,F} x 'all'. thorough: every "
+        "2-function pipeline whose second function consumes only `a`, or `a` and a new 1-D root z zipped with a's first axis (first "
+        "function: one output, no internal axis other than the zipped one; second: no internal axis): file_array x {T,F} x (each single output + 'all'), dict x {T,F} x 'all'. thorough: every "
         "2-function pipeline of the quick generator with file_array x {T,F} x every subset + 'all' and dict x {T,F} x (singles + "
         "'all'); 3-function pipelines h over (c) or (c,a) on top of the quick 2-function sub-bound, file_array x {T,F} x (singles + "
         "'all'). non-trivial = distinct (pipeline, load_intermediate, requested names) whose dataset must carry at least one "
@@ -236,16 +236,18 @@ def check_dataset(ds, spec, names, inputs, env, sel=True):  # noqa: C901, PLR091
                 exp = np.take(_as_array(env[o]), k, axis=full.dims.index(axis))
                 if x in prov[o].get(axis, ()):
                     assert all(str(v) in str(t) for t in np.ravel(_as_array(exp))), ("oracle self-check", o, v, exp)
-                got = res[o]
-                if axis in got.dims:
-                    if got.sizes[axis] != 1:
-                        out.append(({"kind": "sel-wrong-count"}, f"sel({x}={v!r}) kept {got.sizes[axis]} elements of {o} along {axis}"))
+                got = np.asarray(res[o].values)
+                pos = full.dims.index(axis)
+                if got.ndim == full.ndim:
+                    # the dimension was kept (selecting one level of a multi-index keeps it, possibly renamed): one element must be left
+                    if got.shape[pos] != 1:
+                        out.append(({"kind": "sel-wrong-count"}, f"sel({x}={v!r}) kept {got.shape[pos]} elements of {o} along {axis}"))
                         bad = True
                         break
-                    got = got.isel({axis: 0})
-                if terms.T(got.values) != terms.T(exp):
+                    got = np.take(got, 0, axis=pos)
+                if terms.T(got) != terms.T(exp):
                     out.append(({"kind": "sel-wrong-element", "level": where.get(x) is not None},
-                                f"sel({x}={v!r})[{o}] = {terms.T(got.values)[:160]}, the element computed from {v!r} is {terms.T(exp)[:160]}"))
+                                f"sel({x}={v!r})[{o}] = {terms.T(got)[:160]}, the element computed from {v!r} is {terms.T(exp)[:160]}"))
                     bad = True
                     break
             if bad:
@@ -333,7 +335,7 @@ def run_group(spec, storage, combos):  # noqa: C901, PLR0912
                     continue  # identical to the one already checked
                 with _quiet():
                     for part, text in check_dataset(ds, spec, req, inputs, env):
-                        viol.append(({**part, "li": li, **pred}, f"[{entry}, load_intermediate={li}, names={names}] {text} on {desc}"))
+                        viol.append(({**part, "li": li}, f"[{entry}, load_intermediate={li}, names={names}] {text} on {desc}"))
                 info["outcome"] = _describe(ds)
             yield case, viol, info
     finally:
@@ -385,51 +387,66 @@ def in_quick_bound(spec) -> bool:
     g = spec["funcs"][1]
     if g["params"] == ["a"]:
         return True
-    return len(spec["funcs"][0]["outs"]) == 1 and _zip_z(spec)
+    f = spec["funcs"][0]
+    return (len(f["outs"]) == 1 and _zip_z(spec) and not g["internal"]
+            and (not f["internal"] or spec["roots"]["z"][0] in f["internal"]))
 
 
 def groups_for(spec, stage):
     """[(storage, [(li, names)])]"""
     outs = all_outputs(spec)
     lis = (True, False)
+    every, singles = subsets(outs, "subsets"), subsets(outs, "singles")
     if stage == "1-function":
-        combos = [(li, s) for li in lis for s in subsets(outs, "subsets")]
+        combos = [(li, s) for li in lis for s in every]
         return [("file_array", combos), ("dict", combos)]
     if stage == "2-functions-sub":
-        return [("file_array", [(li, s) for li in lis for s in subsets(outs, "singles")]),
-                ("dict", [(li, None) for li in lis])]
-    if stage == "2-functions-rest":
-        return [("file_array", [(li, s) for li in lis for s in subsets(outs, "subsets")]),
-                ("dict", [(li, s) for li in lis for s in subsets(outs, "singles")])]
-    if stage == "3-functions":
-        return [("file_array", [(li, s) for li in lis for s in subsets(outs, "singles")])]
+        return [("file_array", [(li, s) for li in lis for s in singles]), ("dict", [(li, None) for li in lis])]
+    if stage == "2-functions-sub-more":  # what "2-functions-sub" left out of the full product
+        return [("file_array", [(li, s) for li in lis for s in every if s not in singles]),
+                ("dict", [(li, s) for li in lis for s in singles if s is not None])]
+    if stage in ("2-functions-rest", "3-functions"):
+        return [("file_array", [(li, s) for li in lis for s in singles])]
     raise ValueError(stage)
 
 
-def specs_for(stage):
+def extend3(s2):
+    """third function h consuming only `c` (no internal axis on h) on top of a 2-function pipeline"""
+    ax2 = gen_map.output_axes(s2)
+    used = gen_map._used_axes(s2["roots"], s2["funcs"])  # noqa: SLF001
+    for f3 in gen_map.functions_over({"c": ax2["c"]}, "h", [("d",)], used, ["m"], 0, False, must_use=["c"], no_ms_internal=False):
+        yield {"roots": s2["roots"], "sizes": s2["sizes"], "funcs": [*s2["funcs"], f3]}
+
+
+_SPECS: dict = {}  # filled by plan() in the parent process and inherited by the forked workers
+
+
+def specs_for(stage) -> list:
+    if stage in _SPECS:
+        return _SPECS[stage]
     if stage == "1-function":
-        yield from gen_map.pipelines(1, "quick")
-    elif stage == "2-functions-sub":
-        for s in gen_map.pipelines(2, "quick"):
-            if len(s["funcs"]) == 2 and in_quick_bound(s):
-                yield s
+        out = list(gen_map.pipelines(1, "quick"))
+    elif stage in ("2-functions-sub", "2-functions-sub-more"):
+        out = [s for s in gen_map.pipelines(2, "quick") if len(s["funcs"]) == 2 and in_quick_bound(s)]
     elif stage == "2-functions-rest":
-        for s in gen_map.pipelines(2, "quick"):
-            if len(s["funcs"]) == 2 and not in_quick_bound(s):
-                yield s
+        out = [s for s in gen_map.pipelines(2, "quick") if len(s["funcs"]) == 2 and not in_quick_bound(s)]
     elif stage == "3-functions":
-        for s in gen_map.pipelines(3, "quick"):
-            if len(s["funcs"]) == 3 and in_quick_bound({**s, "funcs": s["funcs"][:2]}):
-                yield s
+        out = [s3 for s in specs_for("2-functions-sub") for s3 in extend3(s)]
+    else:
+        raise ValueError(stage)
+    _SPECS[stage] = out
+    return out
 
 
-STAGES = {"quick": ["1-function", "2-functions-sub"], "thorough": ["1-function", "2-functions-sub", "2-functions-rest", "3-functions"]}
-NCHUNK = {"1-function": 32, "2-functions-sub": 224, "2-functions-rest": 1024, "3-functions": 2048}
+STAGES = {"quick": ["1-function", "2-functions-sub"],
+          "thorough": ["1-function", "2-functions-sub", "2-functions-sub-more", "2-functions-rest", "3-functions"]}
+NCHUNK = {"1-function": 32, "2-functions-sub": 224, "2-functions-sub-more": 256, "2-functions-rest": 1024, "3-functions": 1024}
 
 
 def plan(tier, seed):
     out = []
     for st in STAGES[tier]:
+        specs_for(st)
         n = NCHUNK[st]
         us = [(st, (st, c, n)) for c in range(n)]
         r = seed % n
